@@ -111,6 +111,19 @@ func c03Op(c int64, args ...int64) []int64 {
 
 type c03run struct{ b, n, d, e int64 }
 
+// c03Pad appends cheap observations (Len, Buckets) until the case is 400 integers long: the framework re-evaluates only
+// shorter cases inside the Coq kernel, and the kernel sample should consist of the light single-operation cases.
+func c03Pad(in []int64) []int64 {
+	for k := 0; len(in) < 400; k++ {
+		if k%2 == 0 {
+			in = append(in, c03Op(3)...)
+		} else {
+			in = append(in, c03Op(10)...)
+		}
+	}
+	return in
+}
+
 func c03Gen(c *Ctx) {
 	lowsB := []int64{0, 1, 2, 62, 63, 64, 65, 127, 128, 4095, 4096, 4097, 32767, 32768, 65534, 65535}
 	keys := []int64{0, 1, 2, 7, 65535}
@@ -200,6 +213,7 @@ func c03Gen(c *Ctx) {
 		in = append(in, c03Op(10)...)
 		in = append(in, c03Op(4)...)
 		in = append(in, c03Op(5)...)
+		in = c03Pad(in)
 		t.C.Count("fill", fmt.Sprint(x.n))
 		t.Try("exact-threshold", in, true)
 	})
@@ -217,11 +231,16 @@ func c03Gen(c *Ctx) {
 		last := map[int64]*c03run{}
 		var in []int64
 		crossed := false
+		budget := int64(t.C.N(13000, 40000)) // single Add/Remove/Contains operations a script may expand to
+		big := map[int64]bool{}                // at most two buckets receive large fills (bounds the specification's list)
 		phases := 3 + r.Intn(t.C.N(4, 7))
 		for p := 0; p < phases; p++ {
 			h := ks[r.Intn(nk)]
 			lr := last[h]
 			x := r.Intn(100)
+			if budget < 40 && x < 65 {
+				x = 80 + r.Intn(20)
+			}
 			switch {
 			case x < 40 || lr == nil: // fill
 				mods := []int64{4096, 4097, 4100, 4500, 6000, 65536}
@@ -254,9 +273,19 @@ func c03Gen(c *Ctx) {
 				default:
 					n = 1 + r.Int63n(4400)
 				}
+				if !big[h] && len(big) >= 2 && n > 300 {
+					n = 1 + r.Int63n(300)
+				}
 				if n > e {
 					n = e
 				}
+				if n > budget {
+					n = budget
+				}
+				if n > 300 {
+					big[h] = true
+				}
+				budget -= n
 				b := r.Int63n(e)
 				if r.Intn(3) == 0 && lr != nil { // overlap the previous run of this bucket
 					b, d, e = lr.b, lr.d, lr.e
@@ -275,6 +304,10 @@ func c03Gen(c *Ctx) {
 				if k > lr.n {
 					k = lr.n
 				}
+				if lr.n-k > budget {
+					k = lr.n - budget
+				}
+				budget -= lr.n - k
 				if r.Intn(2) == 0 { // keep the first k
 					in = append(in, c03Op(8, h, lr.b+k*lr.d, lr.n-k, lr.d, lr.e)...)
 				} else { // keep the last k
@@ -320,6 +353,7 @@ func c03Gen(c *Ctx) {
 		in = append(in, c03Op(4)...)
 		in = append(in, c03Op(5)...)
 		in = append(in, c03Op(6)...)
+		in = c03Pad(in)
 		t.Try("run-scripts", in, crossed)
 	})
 	c.Note("families: single-ops (short sequences, 1-3 buckets, boundary lows); exact-threshold (4095..4098 values in four orders, drained to one, emptied, re-created); run-scripts (random fill/drain/poke/observe phases over 1-3 buckets)")
